@@ -804,16 +804,28 @@ Qed.
 
 Definition plain (o : op) : bool := match o with CreateEdgeId _ _ _ _ => false | _ => true end.
 
+Lemma create_edge_op_good s f t d : Good s -> Good (fst (create_edge_op s f t d)).
+Proof.
+  intros Hg. unfold create_edge_op. destruct (node_exists s f) eqn:Hf; cbn [negb]; [|assumption].
+  destruct (node_exists s t) eqn:Ht; cbn [negb fst]; [|assumption].
+  apply mem_In in Hf. apply mem_In in Ht.
+  apply create_edge_good; try assumption; try lia.
+  destruct (get_edge s (ecount s + 1)) as [r|] eqn:He; [|reflexivity].
+  destruct Hg as [_ [Hfe _]]. specialize (Hfe _ _ He). lia.
+Qed.
+
+Lemma batch_fold_good l : forall s, Good s ->
+  Good (fold_left (fun s c => let '(f, t, d) := c in fst (create_edge_op s f t d)) l s).
+Proof.
+  induction l as [|[[f t] d] l IH]; intros s Hg; [assumption|]. cbn [fold_left]. apply IH.
+  apply create_edge_op_good. assumption.
+Qed.
+
 Lemma apply_good s o : Good s -> plain o = true -> Good (fst (apply s o)).
 Proof.
-  intros Hg Hp. destruct o as [|f t d|e f t d|e|n|n|e]; try discriminate Hp.
+  intros Hg Hp. destruct o as [|f t d|e f t d|e|n|n|e|l]; try discriminate Hp.
   - apply create_node_good. assumption.
-  - cbn [apply]. destruct (node_exists s f) eqn:Hf; cbn [negb]; [|assumption].
-    destruct (node_exists s t) eqn:Ht; cbn [negb fst]; [|assumption].
-    apply mem_In in Hf. apply mem_In in Ht.
-    apply create_edge_good; try assumption; try lia.
-    destruct (get_edge s (ecount s + 1)) as [r|] eqn:He; [|reflexivity].
-    destruct Hg as [_ [Hfe _]]. specialize (Hfe _ _ He). lia.
+  - cbn [apply]. apply create_edge_op_good. assumption.
   - cbn [apply]. destruct (get_edge s e) as [r|] eqn:He; cbn [fst]; [|assumption].
     apply delete_edge_good; assumption.
   - cbn [apply]. destruct (node_exists s n) eqn:Hn; cbn [fst]; [|assumption].
@@ -829,6 +841,8 @@ Proof.
       unfold after_loop in Hin. rewrite Hfold in Hin. assumption.
   - cbn [apply]. destruct (node_exists s n); assumption.
   - cbn [apply]. destruct (get_edge s e); assumption.
+  - cbn [apply]. unfold batch_create. destruct (batch_missing s l); cbn [fst]; [assumption|].
+    apply batch_fold_good. assumption.
 Qed.
 
 (* the sequential theorem: Consistent is an invariant of every operation sequence from the empty graph *)
